@@ -155,6 +155,9 @@ func NuGetRange() *rapid.Generator[string] {
 			return "[" + ver("v") + "]"
 		case 2:
 			parts := strings.Split(partial(t, "f", false, false, false), ".")
+			if len(parts) == 3 && rapid.IntRange(0, 3).Draw(t, "four") == 0 {
+				return strings.Join(parts, ".") + ".*"
+			}
 			parts[len(parts)-1] = "*"
 			return strings.Join(parts, ".")
 		case 3:
